@@ -24,11 +24,13 @@ type renderer struct {
 	side    map[string]bool // side assertions (ranges)
 	sideOrd []string
 	memo    map[*Term]string
+	memoK   map[string]string
+	defN    int
 	usesPt  bool
 }
 
 func newRenderer(nia bool) *renderer {
-	return &renderer{nia: nia, decls: map[string]string{}, side: map[string]bool{}, memo: map[*Term]string{}}
+	return &renderer{nia: nia, decls: map[string]string{}, side: map[string]bool{}, memo: map[*Term]string{}, memoK: map[string]string{}}
 }
 
 var identRe = regexp.MustCompile(`^[A-Za-z_][A-Za-z0-9_.$]*$`)
@@ -100,8 +102,21 @@ func (r *renderer) render(t *Term) string {
 	if s, ok := r.memo[t]; ok {
 		return s
 	}
+	if s, ok := r.memoK[t.Key()]; ok {
+		r.memo[t] = s
+		return s
+	}
 	s := r.render0(t)
+	if len(s) > 160 && t.Sort != SBool && t.Sort != SArr && (t.Op == "ite" || t.Op == "poly" || t.Op == "div" || t.Op == "mod") {
+		// share big subterms through a defined constant
+		r.defN++
+		n := fmt.Sprintf("def!%d", r.defN)
+		r.declOrd = append(r.declOrd, n)
+		r.decls[n] = fmt.Sprintf("(define-fun %s () %s %s)", n, smtSort(t.Sort, t.W), s)
+		s = n
+	}
 	r.memo[t] = s
+	r.memoK[t.Key()] = s
 	return s
 }
 
